@@ -461,6 +461,22 @@ fn shape_obs<F: VF>(ctx: &mut Ctx, idp: &str, sh: &Shape, all_lanes: bool) {
                 goals.push(A::Bool(rejected));
             }
         }
+        // the list of initial caps the verifier is given (one per oracle of the instance)
+        for grow in [false, true] {
+            let mut b2 = base.clone();
+            if grow {
+                let x = b2.caps.last().cloned().unwrap();
+                b2.caps.push(x);
+            } else {
+                b2.caps.pop();
+            }
+            n += 1;
+            let rejected = !matches!(run_verifier::<F>(&b2), A::Accept(true, _));
+            if !rejected {
+                not_rejected.push(format!("initial_merkle_caps:{}", if grow { "duplicate-last" } else { "remove-last" }));
+            }
+            goals.push(A::Bool(rejected));
+        }
         ctx.add(
             Ob::new(format!("{idp}.shape"), FILES, format!("{bounds}; {n} single-vector length changes (remove last / duplicate last)"))
                 .sample(format!("verify_fri_proof rejects the proof after each single length change (challenges held fixed); not rejected: {not_rejected:?}"))
